@@ -1102,9 +1102,22 @@ func (eng *Engine) Anchors(name string) []string {
 
 // contractFor resolves the contract of a callee for a unit of package pkg: the package's own statement about the
 // callee first, then the callee's contract (its own package's file or the prelude).
+var handoffMu sync.Mutex
+
 func (eng *Engine) contractFor(name, pkg string) (*UnitSpec, bool) {
 	if l, ok := eng.Local[pkg]; ok {
 		if s, ok := l[name]; ok {
+			// hand-over clauses (retains / consumes) of the shared contract stay in force under a package's own statement
+			if g, ok := eng.Contracts[name]; ok && g != s && (len(g.Retains) > 0 || len(g.Consumes) > 0) {
+				handoffMu.Lock()
+				if len(s.Retains) == 0 {
+					s.Retains = g.Retains
+				}
+				if len(s.Consumes) == 0 {
+					s.Consumes = g.Consumes
+				}
+				handoffMu.Unlock()
+			}
 			return s, true
 		}
 	}
